@@ -230,6 +230,37 @@ def vacuity_variant(g):
     return "\n".join(out) + "\n", marks
 
 
+def unannotated_loops(g):
+    """per function: first header line of every non-empty loop that carries neither invariant nor decreases"""
+    out = {}
+    lines = g.text().split("\n")
+    for f in g.fns:
+        body = "\n".join(lines[f["lo"] - 1:f["hi"]])
+        for m in re.finditer(r"(?m)^[ \t]*(?:'[a-z_]+:\s*)?(for\b[^;{]*\bin\b|while\b|loop\b)", body):
+            seg = body[m.start():]
+            hdr = []
+            for ln in seg.split("\n"):
+                hdr.append(ln)
+                if ln.rstrip().endswith("{"):
+                    break
+            head = "\n".join(hdr)
+            ob = body.find("{", m.start() + len(head) - 1)
+            depth, q = 0, ob
+            while q >= 0 and q < len(body):
+                if body[q] == "{":
+                    depth += 1
+                elif body[q] == "}":
+                    depth -= 1
+                    if depth == 0:
+                        break
+                q += 1
+            if ob >= 0 and body[ob + 1:q].strip() == "":
+                continue
+            if "invariant" not in head and "decreases" not in head:
+                out.setdefault(f["qual"], []).append(" ".join(head.strip().split("\n")[0].split()))
+    return out
+
+
 def check_unit(unit, tier="quick", vacuity=True):
     """returns dict with everything the driver needs"""
     g = generate(unit)
@@ -255,42 +286,22 @@ def check_unit(unit, tier="quick", vacuity=True):
     # resource-out is undecided, not a failure
     if "rlimit" in res["stderr"].lower() and "exceeded" in res["stderr"].lower():
         raise Undecided("rlimit", unit)
-    # a failed obligation in a function that contains a loop WITHOUT an invariant is undecided, not a violation: the loop
-    # is text the template does not know (a refactoring turned an iterator adapter into a loop, say) and nothing can be
-    # proved across it — the twins decide (bounded), never an alarm from a missing proof
+    # a failed obligation in a function that contains a loop WITHOUT an invariant that the committed baseline does not know
+    # (assumptions/<unit>.loops: the unannotated loops of the unchanged tree, which verify as they are) is undecided, not a
+    # violation: the loop is text the template does not know (a refactoring turned an iterator adapter into a loop, say) and
+    # nothing can be proved across it - the twins decide (bounded), never an alarm from a missing proof
+    loops_now = unannotated_loops(g)
+    base_p = os.path.join(ROOT, "assumptions", unit + ".loops")
+    known_loops = set()
+    if os.path.exists(base_p):
+        known_loops = set(l.rstrip("\n") for l in open(base_p) if l.strip() and not l.startswith("#"))
     if fails:
-        lines = g.text().split("\n")
         for f in g.fns:
             if not any(x.get("fn") == f["qual"] for x in fails):
                 continue
-            body = "\n".join(lines[f["lo"] - 1:f["hi"]])
-            for m in re.finditer(r"(?m)^[ \t]*(?:'[a-z_]+:\s*)?(for\b[^;{]*\bin\b|while\b|loop\b)", body):
-                k = body.find("{", m.end())
-                # (the header runs up to the `{` that opens the body; invariant / decreases clauses sit inside it)
-                head = body[m.start():k if k >= 0 else m.end()]
-                # skip `{` that belong to closures / struct literals inside a long header: take the text up to the first line ending in `{`
-                seg = body[m.start():]
-                hdr = []
-                for ln in seg.split("\n"):
-                    hdr.append(ln)
-                    if ln.rstrip().endswith("{"):
-                        break
-                head = "\n".join(hdr)
-                # (a loop whose body is empty — log statements dropped by rule R0 — changes nothing)
-                ob = body.find("{", m.start() + len(head) - 1)
-                depth, q = 0, ob
-                while q >= 0 and q < len(body):
-                    if body[q] == "{":
-                        depth += 1
-                    elif body[q] == "}":
-                        depth -= 1
-                        if depth == 0:
-                            break
-                    q += 1
-                if ob >= 0 and body[ob + 1:q].strip() == "":
-                    continue
-                if "invariant" not in head and "decreases" not in head:
-                    raise Undecided("unannotated-loop", "%s: %s has a loop without an invariant (`%s`): failed obligations there are undecided" % (unit, f["qual"], head.strip().split("\n")[0][:80]))
+            for head in loops_now.get(f["qual"], []):
+                if f["qual"] + " :: " + head not in known_loops:
+                    raise Undecided("unannotated-loop", "%s: %s has a loop without an invariant that the baseline does not list (`%s`): failed obligations there are undecided" % (unit, f["qual"], head[:80]))
     names = [b["function"] for b in bd]
     missing = [f["qual"] for f in g.fns if not any(n.split("::")[-1] == f["rust_name"] for n in names)]
     vac = {"probed": 0, "vacuous": []}
@@ -313,5 +324,5 @@ def check_unit(unit, tier="quick", vacuity=True):
         "unit": unit, "gen": g, "stub_units": g.stub_units, "path": path, "res": res, "fails": fails, "breakdown": bd,
         "verified": vr.get("verified", 0), "errors": vr.get("errors", 0),
         "missing_fns": missing, "vacuity": vac, "assumptions": scan_assumptions(g),
-        "smt_ms": sum(b["ms"] for b in bd), "wall": res["wall"],
+        "smt_ms": sum(b["ms"] for b in bd), "wall": res["wall"], "unannotated_loops": loops_now,
     }
